@@ -149,4 +149,152 @@ theorem or_bools (sp : Span) (bs : List Bool) :
 -- documented examples
 example : intQuot (-7) 2 = -3 ∧ intRem (-7) 2 = -1 ∧ intQuot 7 (-2) = -3 ∧ intRem 7 (-2) = 1 := by decide
 
+/-! ### modular power and inverse (`ㅅ` with three arguments) -/
+
+theorem powModNat_go_spec (m : Nat) (hm : 0 < m) : ∀ (fuel b e acc : Nat), e < 2 ^ fuel → acc < m →
+    powModNat.go m fuel b e acc = acc * b ^ e % m := by
+  intro fuel
+  induction fuel with
+  | zero =>
+    intro b e acc he hacc
+    have : e = 0 := by simpa using he
+    subst this
+    simp [powModNat.go, Nat.mod_eq_of_lt hacc]
+  | succ fuel ih =>
+    intro b e acc he hacc
+    unfold powModNat.go
+    by_cases h0 : e = 0
+    · subst h0; simp [Nat.mod_eq_of_lt hacc]
+    · simp only [h0, if_false]
+      have he2 : e / 2 < 2 ^ fuel := by
+        rw [Nat.pow_succ] at he; omega
+      have hsq : ∀ k : Nat, (b * b % m) ^ k % m = b ^ (2 * k) % m := by
+        intro k
+        rw [← Nat.pow_mod, Nat.pow_mul, Nat.pow_two]
+      by_cases hodd : e % 2 = 1
+      · simp only [hodd, if_true]
+        rw [ih _ _ _ he2 (Nat.mod_lt _ hm)]
+        have hk : e = 2 * (e / 2) + 1 := by omega
+        conv => rhs; rw [hk, Nat.pow_succ]
+        rw [Nat.mul_mod, Nat.mod_mod, hsq, ← Nat.mul_mod]
+        congr 1
+        rw [Nat.mul_assoc, Nat.mul_comm b, ← Nat.mul_assoc]
+      · simp only [hodd, if_false]
+        rw [ih _ _ _ he2 hacc]
+        have hk : e = 2 * (e / 2) := by omega
+        conv => rhs; rw [hk]
+        rw [Nat.mul_mod, hsq, ← Nat.mul_mod]
+
+/-- **modular power**: square-and-multiply computes `b^e mod m` exactly, for every base, exponent and modulus -/
+theorem powModNat_spec (b e m : Nat) (hm : 0 < m) : powModNat b e m = b ^ e % m := by
+  unfold powModNat
+  have hlt : e < 2 ^ (Nat.log2 e + 2) := by
+    have := @Nat.lt_log2_self e
+    calc e < 2 ^ (Nat.log2 e + 1) := this
+      _ ≤ 2 ^ (Nat.log2 e + 2) := Nat.pow_le_pow_right (by omega) (by omega)
+  rw [powModNat_go_spec m hm _ _ _ _ hlt (Nat.mod_lt _ hm)]
+  rw [Nat.mul_mod, Nat.mod_mod, ← Nat.mul_mod, Nat.one_mul, ← Nat.pow_mod]
+
+
+theorem emod_pow_emod (b M : Int) (k : Nat) : (b % M) ^ k % M = b ^ k % M := by
+  induction k with
+  | zero => simp
+  | succ k ih =>
+    rw [Int.pow_succ, Int.pow_succ, Int.mul_emod, ih, Int.emod_emod_of_dvd _ (Int.dvd_refl M), ← Int.mul_emod]
+
+/-- `ㅅ` with three arguments and a non-negative exponent is exactly `base^exp mod |modulus|` -/
+theorem powMod_nonneg (b e m : Int) (hm : m ≠ 0) (he : 0 ≤ e) :
+    powMod b e m = some (b ^ e.toNat % (m.natAbs : Int)) := by
+  unfold powMod
+  have hM : m.natAbs ≠ 0 := by omega
+  have hMpos : 0 < m.natAbs := by omega
+  simp only [hM, if_false, he, if_true]
+  rw [powModNat_spec _ _ _ hMpos]
+  congr 1
+  have hx : 0 ≤ b % (m.natAbs : Int) := Int.emod_nonneg _ (by omega)
+  rw [Int.natCast_emod, Int.natCast_pow, Int.toNat_of_nonneg hx, emod_pow_emod]
+
+/-- the result lies in `[0, |m|)` -/
+theorem powMod_range (b e m r : Int) (hm : m ≠ 0) (he : 0 ≤ e) (h : powMod b e m = some r) :
+    0 ≤ r ∧ r < m.natAbs := by
+  rw [powMod_nonneg b e m hm he] at h
+  injection h with h
+  subst h
+  exact ⟨Int.emod_nonneg _ (by omega), Int.emod_lt_of_pos _ (by omega)⟩
+
+theorem powMod_zero_modulus (b e : Int) : powMod b e 0 = none := by simp [powMod]
+
+theorem modInverse_go_inv (a' M : Int) : ∀ (fuel : Nat) (r0 r1 s0 s1 : Int),
+    M ∣ r0 - s0 * a' → M ∣ r1 - s1 * a' →
+    M ∣ (modInverse.go fuel r0 r1 s0 s1).1 - (modInverse.go fuel r0 r1 s0 s1).2 * a' := by
+  intro fuel
+  induction fuel with
+  | zero => intro r0 r1 s0 s1 h0 _; simpa [modInverse.go] using h0
+  | succ fuel ih =>
+    intro r0 r1 s0 s1 h0 h1
+    unfold modInverse.go
+    by_cases hr : r1 = 0
+    · simpa [hr] using h0
+    · simp only [hr, if_false]
+      apply ih _ _ _ _ h1
+      have e : r0 - r0 / r1 * r1 - (s0 - r0 / r1 * s1) * a' = (r0 - s0 * a') - r0 / r1 * (r1 - s1 * a') := by
+        simp only [Int.sub_mul, Int.mul_sub, Int.mul_assoc]; omega
+      rw [e]
+      exact Int.dvd_sub h0 (Int.dvd_mul_of_dvd_right h1) 
+
+
+/-- **modular inverse**: whenever `modInverse a m` answers, the answer is an inverse of `a` modulo `m`, in `[0, m)` -/
+theorem modInverse_spec (a : Int) (m i : Nat) (hm : 0 < m) (h : modInverse a m = some i) :
+    (a * (i : Int)) % (m : Int) = 1 % (m : Int) ∧ i < m := by
+  unfold modInverse at h
+  simp only [] at h
+  have hM : (0 : Int) < m := by omega
+  have hinv := modInverse_go_inv (a % (m : Int)) m (2 * (Nat.log2 m + 2) + 4) (a % (m : Int)) m 1 0
+    (by simp) (by simp)
+  generalize modInverse.go (2 * (Nat.log2 m + 2) + 4) (a % (m : Int)) m 1 0 = gs at h hinv
+  obtain ⟨g, s⟩ := gs
+  simp only [] at h hinv
+  by_cases hg : g = 1
+  · simp only [hg, if_true, Option.some.injEq] at h
+    subst hg
+    have hs0 : 0 ≤ s % (m : Int) := Int.emod_nonneg _ (by omega)
+    have hs1 : s % (m : Int) < m := Int.emod_lt_of_pos _ hM
+    have hi : (i : Int) = s % (m : Int) := by rw [← h]; exact Int.toNat_of_nonneg hs0
+    refine ⟨?_, by omega⟩
+    -- m ∣ 1 - s * (a % m)
+    rw [hi]
+    have h1 : (a * (s % (m : Int))) % (m : Int) = (s * (a % (m : Int))) % (m : Int) := by
+      rw [Int.mul_emod, Int.emod_emod_of_dvd _ (Int.dvd_refl _), Int.mul_comm]
+      conv => rhs; rw [Int.mul_emod, Int.emod_emod_of_dvd _ (Int.dvd_refl _)]
+    rw [h1]
+    have h2 : (1 - s * (a % (m : Int))) % (m : Int) = 0 := Int.emod_eq_zero_of_dvd hinv
+    have := (Int.emod_eq_emod_iff_emod_sub_eq_zero (m := 1) (n := (m : Int)) (k := s * (a % (m : Int)))).mpr h2
+    exact this.symm
+  · simp only [hg, if_false] at h
+    by_cases h1 : m = 1
+    · simp only [h1, if_true, Option.some.injEq] at h
+      subst h; subst h1
+      simp
+    · simp [h1] at h
+
+/-- a negative exponent uses an inverse of the base: `r = inv^|e| mod |m|` with `base · inv ≡ 1 (mod |m|)`; no inverse ⇒ value error -/
+theorem powMod_neg (b e m r : Int) (hm : m ≠ 0) (he : e < 0) (h : powMod b e m = some r) :
+    ∃ inv : Nat, (b * (inv : Int)) % (m.natAbs : Int) = 1 % (m.natAbs : Int) ∧ r = (inv : Int) ^ e.natAbs % (m.natAbs : Int) := by
+  unfold powMod at h
+  have hM : m.natAbs ≠ 0 := by omega
+  have hMpos : 0 < m.natAbs := by omega
+  have hne : ¬ (0 ≤ e) := by omega
+  simp only [hM, if_false, hne] at h
+  cases hi : modInverse b m.natAbs with
+  | none => simp [hi] at h
+  | some inv =>
+    simp only [hi, Option.some.injEq] at h
+    refine ⟨inv, (modInverse_spec b m.natAbs inv hMpos hi).1, ?_⟩
+    rw [← h, powModNat_spec _ _ _ hMpos, Int.natCast_emod, Int.natCast_pow]
+
+example : powMod 3 200 13 = some 9 ∧ powMod (-2) 5 7 = some 3 ∧ powMod 3 (-1) 7 = some 5 ∧ powMod 2 (-1) 4 = none := by
+  decide +kernel
+
+
+
 end UH.C11
